@@ -29,14 +29,20 @@ def spliceOut (s : St) (z : Nat) : St :=
   let x := if (s.nd z).left ≠ 0 then (s.nd z).left else (s.nd z).right
   relink (s.setParent x (s.parentOf z)) z x
 
+theorem spliceOut_key (s : St) (z w : Nat) : ((spliceOut s z).nd w).key = (s.nd w).key := by
+  unfold spliceOut; simp
+
+theorem spliceOut_val (s : St) (z w : Nat) : ((spliceOut s z).nd w).val = (s.nd w).val := by
+  unfold spliceOut; simp
+
 theorem spliceOut_fields (s : St) (z w : Nat) (hw : w ≠ s.parentOf z) (hzx : z ≠ (if (s.nd z).left ≠ 0 then (s.nd z).left else (s.nd z).right)) :
     ((spliceOut s z).nd w).left = (s.nd w).left ∧ ((spliceOut s z).nd w).right = (s.nd w).right ∧
     ((spliceOut s z).nd w).key = (s.nd w).key ∧ ((spliceOut s z).nd w).val = (s.nd w).val := by
-  unfold spliceOut
-  simp only
-  have hp : (s.setParent (if (s.nd z).left ≠ 0 then (s.nd z).left else (s.nd z).right) (s.parentOf z)).parentOf z = s.parentOf z :=
+  refine ⟨?_, ?_, spliceOut_key s z w, spliceOut_val s z w⟩
+  all_goals unfold spliceOut
+  all_goals simp only
+  all_goals have hp : (s.setParent (if (s.nd z).left ≠ 0 then (s.nd z).left else (s.nd z).right) (s.parentOf z)).parentOf z = s.parentOf z :=
     setParent_parentOf_ne _ _ _ _ hzx
-  refine ⟨?_, ?_, by simp, by simp⟩
   · rw [relink_left_ne _ _ _ _ (by rw [hp]; exact hw)]; simp
   · rw [relink_right_ne _ _ _ _ (by rw [hp]; exact hw)]; simp
 
@@ -50,23 +56,48 @@ theorem spliceOut_frame {s : St} {z p : Nat} {t : RTree} (h : Rep s p t)
   intro w hw
   exact spliceOut_fields s z w (hd w hw) hzx
 
+/-- `z` is the top of the represented tree `tz` and its parent is outside: the child takes its place -/
+theorem spliceOut_rep_top {s : St} {z : Nat} (hz0 : z ≠ 0)
+    (hzx : z ≠ (if (s.nd z).left ≠ 0 then (s.nd z).left else (s.nd z).right))
+    (tz : RTree) (hrz : Rep s z tz) (hd : ∀ w ∈ tz.ptrs, w ≠ s.parentOf z) :
+    Rep (spliceOut s z) (if (s.nd z).left ≠ 0 then (s.nd z).left else (s.nd z).right) (tz.remove z) := by
+  cases tz with
+  | leaf => exact absurd hrz hz0
+  | node a z' kz vz c =>
+    obtain ⟨hzz, _, _, _, _, ha, hc⟩ := hrz
+    subst hzz
+    simp only [RTree.remove, if_true]
+    cases a with
+    | leaf =>
+      have hl0 : (s.nd z).left = 0 := ha
+      simp only [hl0, ne_eq, not_true_eq_false, if_false]
+      exact spliceOut_frame hc (by simpa [hl0] using hzx) (fun w hw => hd w (by simp [RTree.ptrs, hw]))
+    | node aa ap ak av ac =>
+      have hl0 : (s.nd z).left ≠ 0 := ha.1 ▸ ha.2.1
+      simp only [hl0, ne_eq, not_false_eq_true, if_true]
+      exact spliceOut_frame ha (by simpa [hl0] using hzx)
+        (fun w hw => hd w (by simp only [RTree.ptrs, List.mem_append, List.mem_cons] at hw ⊢; exact Or.inl hw))
+
+theorem splice_target_ne {s : St} {q z : Nat} {t : RTree} (hr : Rep s q t) (hn : t.ptrs.Nodup) (hz : z ∈ t.ptrs) :
+    z ≠ (if (s.nd z).left ≠ 0 then (s.nd z).left else (s.nd z).right) := by
+  obtain ⟨a, kz, vz, c, hsub, hsn, _⟩ := rep_sub hr hn hz
+  obtain ⟨_, hz0, _, _, _, ha, hc⟩ := hsub
+  simp only [RTree.ptrs, List.nodup_append, List.nodup_cons] at hsn
+  split
+  · rename_i hl
+    rcases rep_root_zero_or_mem ha with e | e
+    · exact absurd e hl
+    · intro e'; rw [← e'] at e; exact hsn.2.2 z e z (by simp) rfl
+  · rcases rep_root_zero_or_mem hc with e | e
+    · rw [e]; exact hz0
+    · intro e'; rw [← e'] at e; exact hsn.2.1.1 e
+
 /-- `z` strictly inside a represented subtree with top `q`: afterwards `q` represents the tree without `z` -/
-theorem spliceOut_rep_inside (s : St) (z : Nat) (h1 : (s.nd z).left = 0 ∨ (s.nd z).right = 0) (hz0 : z ≠ 0)
+theorem spliceOut_rep_inside (s : St) (z : Nat) (hz0 : z ≠ 0)
     (t : RTree) (q par : Nat) (hr : Rep s q t) (hn : t.ptrs.Nodup) (hp : POK s par t)
     (hz : z ∈ t.ptrs) (hzq : z ≠ q) :
     Rep (spliceOut s z) q (t.remove z) := by
-  have hzx : z ≠ (if (s.nd z).left ≠ 0 then (s.nd z).left else (s.nd z).right) := by
-    obtain ⟨a, kz, vz, c, hsub, hsn, _⟩ := rep_sub hr hn hz
-    obtain ⟨_, _, _, _, _, ha, hc⟩ := hsub
-    simp only [RTree.ptrs, List.nodup_append, List.nodup_cons] at hsn
-    split
-    · rename_i hl
-      rcases rep_root_zero_or_mem ha with e | e
-      · exact absurd e hl
-      · intro e'; rw [← e'] at e; exact hsn.2.2 z e z (by simp) rfl
-    · rcases rep_root_zero_or_mem hc with e | e
-      · rw [e]; exact hz0
-      · intro e'; rw [← e'] at e; exact hsn.2.1.1 e
+  have hzx := splice_target_ne hr hn hz
   induction t generalizing q par with
   | leaf => cases hz
   | node l p k v r ihl ihr =>
@@ -90,6 +121,9 @@ theorem spliceOut_rep_inside (s : St) (z : Nat) (h1 : (s.nd z).left = 0 ∨ (s.n
         rw [setParent_parentOf_ne _ _ _ _ hzx]; exact hpz
       have := relink_at _ z (if (s.nd z).left ≠ 0 then (s.nd z).left else (s.nd z).right) q hpe hq0 (by simpa using hqs)
       simpa using this
+    have htop : ∀ (tz : RTree), Rep s z tz → tz.ptrs.Nodup → (∀ w ∈ tz.ptrs, w ≠ q) → s.parentOf z = q →
+        Rep (spliceOut s z) (if (s.nd z).left ≠ 0 then (s.nd z).left else (s.nd z).right) (tz.remove z) :=
+      fun tz hrz _ hdq hpz => spliceOut_rep_top hz0 hzx tz hrz (fun w hw => hpz ▸ hdq w hw)
     rcases hz with hz | hz | hz
     · have hzr : z ∉ r.ptrs := fun hm => hlr z hz z (by simp [hm]) rfl
       rw [RTree.remove_not_mem z r hzr]
@@ -99,10 +133,200 @@ theorem spliceOut_rep_inside (s : St) (z : Nat) (h1 : (s.nd z).left = 0 ∨ (s.n
         rw [if_pos hztop, if_pos hztop] at ha
         have hrr : Rep (spliceOut s z) (s.nd q).right r :=
           spliceOut_frame hr' hzx (fun w hw e => hqr ((e.trans hpz) ▸ hw))
-        refine ⟨rfl, hq0, by rw [hsz]; exact hqs, by rw [(spliceOut_fields s z q (fun e => ?_) hzx).2.2.1]; exact hk, ?_, ?_, ?_⟩
-        all_goals sorry
-      · sorry
+        refine ⟨rfl, hq0, by rw [hsz]; exact hqs, by rw [spliceOut_key]; exact hk, by rw [spliceOut_val]; exact hv,
+          ?_, by rw [ha.2]; exact hrr⟩
+        rw [ha.1]
+        have hl2 := hl
+        rw [← hztop] at hl2
+        exact htop l hl2 hnl (fun w hw e => hql (e ▸ hw)) hpz
+      · have hqpz : q ≠ s.parentOf z := fun e => hql (e ▸ hpz)
+        have hf := spliceOut_fields s z q hqpz hzx
+        have hrr : Rep (spliceOut s z) (s.nd q).right r :=
+          spliceOut_frame hr' hzx (fun w hw e => hlr _ hpz w (by simp [hw]) e.symm)
+        refine ⟨rfl, hq0, by rw [hsz]; exact hqs, by rw [spliceOut_key]; exact hk, by rw [spliceOut_val]; exact hv,
+          ?_, by rw [hf.2.1]; exact hrr⟩
+        rw [hf.1]
+        exact ihl _ q hl hnl hpl hz hztop
     · exact absurd hz hzq
-    · sorry
+    · have hzl : z ∉ l.ptrs := fun hm => hlr z hm z (by simp [hz]) rfl
+      rw [RTree.remove_not_mem z l hzl]
+      rcases pok_parentOf hr' hnr hpr hz with ⟨hztop, hpz⟩ | ⟨hztop, hpz⟩
+      · have ha := hat hpz
+        have hznl : ¬ z = (s.nd q).left := by
+          intro e
+          rcases rep_root_zero_or_mem hl with e0 | em
+          · exact hz0 (e.trans e0)
+          · exact hzl (e ▸ em)
+        rw [if_neg hznl, if_neg hznl] at ha
+        have hll : Rep (spliceOut s z) (s.nd q).left l :=
+          spliceOut_frame hl hzx (fun w hw e => hql ((e.trans hpz) ▸ hw))
+        refine ⟨rfl, hq0, by rw [hsz]; exact hqs, by rw [spliceOut_key]; exact hk, by rw [spliceOut_val]; exact hv,
+          by rw [ha.1]; exact hll, ?_⟩
+        rw [ha.2]
+        have hr2 := hr'
+        rw [← hztop] at hr2
+        exact htop r hr2 hnr (fun w hw e => hqr (e ▸ hw)) hpz
+      · have hqpz : q ≠ s.parentOf z := fun e => hqr (e ▸ hpz)
+        have hf := spliceOut_fields s z q hqpz hzx
+        have hll : Rep (spliceOut s z) (s.nd q).left l :=
+          spliceOut_frame hl hzx (fun w hw e => hlr w hw _ (by simp [hpz]) e)
+        refine ⟨rfl, hq0, by rw [hsz]; exact hqs, by rw [spliceOut_key]; exact hk, by rw [spliceOut_val]; exact hv,
+          by rw [hf.1]; exact hll, ?_⟩
+        rw [hf.2.1]
+        exact ihr _ q hr' hnr hpr hz hztop
+
+/-- in-order effect of removing a node with at most one child: exactly its entry disappears -/
+theorem remove_toList {s : St} {q z : Nat} {t : RTree} (hr : Rep s q t) (hn : t.ptrs.Nodup) (hz : z ∈ t.ptrs)
+    (h1 : (s.nd z).left = 0 ∨ (s.nd z).right = 0) :
+    ∃ L R, t.toList = L ++ ((s.nd z).key, (s.nd z).val) :: R ∧ (t.remove z).toList = L ++ R := by
+  induction t generalizing q with
+  | leaf => cases hz
+  | node l p k v r ihl ihr =>
+    obtain ⟨rfl, hq0, _, hk, hv, hl, hr'⟩ := hr
+    simp only [RTree.ptrs, List.nodup_append, List.nodup_cons] at hn
+    obtain ⟨hnl, ⟨hqr, hnr⟩, hlr⟩ := hn
+    simp only [RTree.ptrs, List.mem_append, List.mem_cons] at hz
+    by_cases hqz : q = z
+    · subst hqz
+      simp only [RTree.remove, if_true, RTree.toList, hk, hv]
+      cases l with
+      | leaf => exact ⟨[], r.toList, by simp [RTree.toList], by simp⟩
+      | node la lp lk lv lc =>
+        have hl0 : (s.nd q).left ≠ 0 := hl.1 ▸ hl.2.1
+        have hr0 : (s.nd q).right = 0 := h1.resolve_left hl0
+        rw [hr0] at hr'
+        rw [rep_zero_leaf hr']
+        exact ⟨(RTree.node la lp lk lv lc).toList, [], by simp [RTree.toList], by simp⟩
+    · simp only [RTree.remove, hqz, if_false, RTree.toList]
+      rcases hz with hz | hz | hz
+      · have hzr : z ∉ r.ptrs := fun hm => hlr z hz z (by simp [hm]) rfl
+        rw [RTree.remove_not_mem z r hzr]
+        obtain ⟨L, R, e1, e2⟩ := ihl hl hnl hz
+        exact ⟨L, R ++ (k, v) :: r.toList, by rw [e1]; simp, by rw [e2]; simp⟩
+      · exact absurd hz.symm hqz
+      · have hzl : z ∉ l.ptrs := fun hm => hlr z hm z (by simp [hz]) rfl
+        rw [RTree.remove_not_mem z l hzl]
+        obtain ⟨L, R, e1, e2⟩ := ihr hr' hnr hz
+        exact ⟨l.toList ++ (k, v) :: L, R, by rw [e1]; simp, by rw [e2]; simp⟩
+
+/-- the whole unlinking step: the root represents the tree without `z` -/
+theorem spliceOut_rep (s : St) (z : Nat) (t : RTree) (hr : Rep s s.root t) (hn : t.ptrs.Nodup) (hp : POK s 0 t)
+    (hz : z ∈ t.ptrs) : Rep (spliceOut s z) (spliceOut s z).root (t.remove z) := by
+  have hz0 : z ≠ 0 := (rep_ptrs_ne_zero hr z hz).1
+  have hzx := splice_target_ne hr hn hz
+  have hroot : (spliceOut s z).root = if s.parentOf z = 0 then (if (s.nd z).left ≠ 0 then (s.nd z).left else (s.nd z).right) else s.root := by
+    unfold spliceOut
+    simp only [relink_root, setParent_parentOf_ne _ _ _ _ hzx, setParent_root]
+  rcases pok_parentOf hr hn hp hz with ⟨hztop, hpz⟩ | ⟨hztop, hpz⟩
+  · rw [hroot, if_pos hpz]
+    have hr2 := hr
+    rw [← hztop] at hr2
+    exact spliceOut_rep_top hz0 hzx t hr2 (fun w hw e => (rep_ptrs_ne_zero hr w hw).1 (e.trans hpz))
+  · rw [hroot, if_neg (rep_ptrs_ne_zero hr _ hpz).1]
+    exact spliceOut_rep_inside s z hz0 t s.root 0 hr hn hp hz hztop
+
+/-! ### consequences for lookups -/
+
+theorem mem_remove_toList (z : Nat) (t : RTree) (x : Int × Int) (h : x ∈ (t.remove z).toList) : x ∈ t.toList := by
+  induction t with
+  | leaf => exact h
+  | node l p k v r ihl ihr =>
+    simp only [RTree.remove] at h
+    split at h
+    · cases l with
+      | leaf => simp only [RTree.toList, List.nil_append, List.mem_cons]; exact Or.inr h
+      | node _ _ _ _ _ => simp only [RTree.toList, List.mem_append]; exact Or.inl (by simpa [RTree.toList] using h)
+    · simp only [RTree.toList, List.mem_append, List.mem_cons] at h ⊢
+      rcases h with h | h | h
+      · exact Or.inl (ihl h)
+      · exact Or.inr (Or.inl h)
+      · exact Or.inr (Or.inr (ihr h))
+
+theorem bst_remove (z : Nat) (t : RTree) (hb : BST t) : BST (t.remove z) := by
+  induction t with
+  | leaf => trivial
+  | node l p k v r ihl ihr =>
+    obtain ⟨hbl, hbr, hlt, hgt⟩ := hb
+    simp only [RTree.remove]
+    split
+    · cases l with
+      | leaf => exact hbr
+      | node _ _ _ _ _ => exact hbl
+    · exact ⟨ihl hbl, ihr hbr, fun x hx => hlt x (mem_remove_toList z l x hx), fun x hx => hgt x (mem_remove_toList z r x hx)⟩
+
+theorem height_remove_le (z : Nat) (t : RTree) : (t.remove z).height ≤ t.height := by
+  induction t with
+  | leaf => exact Nat.le_refl _
+  | node l p k v r ihl ihr =>
+    simp only [RTree.remove]
+    split
+    · cases l with
+      | leaf => simp only [RTree.height]; omega
+      | node _ _ _ _ _ => simp only [RTree.height]; omega
+    · simp only [RTree.height]; omega
+
+theorem lookup_remove_middle (L R : List (Int × Int)) (e : Int × Int) (hn : (C13Spec.keys (L ++ e :: R)).Nodup) (q : Int) :
+    C13Spec.lookup q (L ++ R) = if q = e.1 then none else C13Spec.lookup q (L ++ e :: R) := by
+  have hsub : (L ++ R).Sublist (L ++ e :: R) := List.Sublist.append_left (List.sublist_cons_self e R) L
+  have hn' : (C13Spec.keys (L ++ R)).Nodup := List.Sublist.nodup (List.Sublist.map Prod.fst hsub) hn
+  apply Option.ext
+  intro w
+  rw [C13Spec.lookup_eq_some_iff hn']
+  by_cases h : q = e.1
+  · subst h
+    simp only [if_true, reduceCtorEq, iff_false]
+    intro hm
+    simp only [C13Spec.keys, List.map_append, List.map_cons, List.nodup_append, List.nodup_cons] at hn
+    rcases List.mem_append.mp hm with hm | hm
+    · exact hn.2.2 e.1 (List.mem_map.mpr ⟨(e.1, w), hm, rfl⟩) e.1 (by simp) rfl
+    · exact hn.2.1.1 (List.mem_map.mpr ⟨(e.1, w), hm, rfl⟩)
+  · simp only [h, if_false, C13Spec.lookup_eq_some_iff hn, List.mem_append, List.mem_cons]
+    constructor
+    · rintro (hm | hm)
+      · exact Or.inl hm
+      · exact Or.inr (Or.inr hm)
+    · rintro (hm | hm | hm)
+      · exact Or.inl hm
+      · exact absurd (by rw [← hm]) h
+      · exact Or.inr hm
+
+/-- for a node with at most one child the pinned `delete(z)` is: unlink, then `deleteFixup` if the node was black -/
+theorem treeDelete_le1 (s : St) (z : Nat) (h1 : (s.nd z).left = 0 ∨ (s.nd z).right = 0) :
+    (treeDelete false s z).1 =
+      if ((spliceOut s z).nd z).red = false
+      then deleteFixup (spliceOut s z).fuel (spliceOut s z) (if (s.nd z).left ≠ 0 then (s.nd z).left else (s.nd z).right)
+      else spliceOut s z := by
+  unfold treeDelete spliceTarget
+  rw [if_pos h1]
+  simp only [Bool.false_eq_true, false_and, if_false]
+  rfl
+
+theorem find_mem {s : St} {t : RTree} {p : Nat} (k : Int) (h : Rep s p t) (hne : t.find k ≠ 0) :
+    t.find k ∈ t.ptrs ∧ (s.nd (t.find k)).key = k := by
+  induction t generalizing p with
+  | leaf => exact absurd rfl hne
+  | node l q k' v r ihl ihr =>
+    obtain ⟨rfl, _, _, hk, _, hl, hr⟩ := h
+    simp only [RTree.find] at hne ⊢
+    simp only [RTree.ptrs, List.mem_append, List.mem_cons]
+    split
+    · rename_i h1
+      rw [if_pos h1] at hne
+      exact ⟨Or.inr (Or.inr (ihr hr hne).1), (ihr hr hne).2⟩
+    · rename_i h1
+      rw [if_neg h1] at hne
+      split
+      · rename_i h2
+        rw [if_pos h2] at hne
+        exact ⟨Or.inl (ihl hl hne).1, (ihl hl hne).2⟩
+      · rename_i h2
+        exact ⟨Or.inr (Or.inl rfl), by rw [hk]; omega⟩
+
+instance decBST : (t : RTree) → Decidable (BST t)
+  | .leaf => inferInstanceAs (Decidable True)
+  | .node l _ k _ r =>
+    have := decBST l
+    have := decBST r
+    inferInstanceAs (Decidable (BST l ∧ BST r ∧ (∀ x ∈ l.toList, x.1 < k) ∧ (∀ x ∈ r.toList, k < x.1)))
 
 end WaVerif.C13RB
